@@ -303,3 +303,70 @@ def analyse_from_bitarray(repo, ci, region, nbits, B):
             res.hosterrors.append(o)
     res.interp = it
     return res
+
+
+# ---------------------------------------------------------------------------
+# combined model of one root: partition + per-encoding operand extraction
+# ---------------------------------------------------------------------------
+class EncodingModel:
+    def __init__(self, name):
+        self.name = name
+        self.region = 0
+        self.accept = 0
+        self.undef = 0        # raise UndefinedInstructionException
+        self.other_raise = {}  # any other exception class -> cond
+        self.unpred = 0       # implicit None
+        self.kwargs = {}
+        self.ctor = {}        # constructed class name -> cond
+        self.hosterrors = []
+        self.impure = []
+        self.abstract = None
+        self.file = None
+
+
+class RootModel:
+    def __init__(self, root, part):
+        self.root = root
+        self.part = part
+        self.nbits = part.nbits
+        self.encodings = {}
+
+
+def build(repo, root, B):
+    part = partition(repo, root, B)
+    rm = RootModel(root, part)
+    for cname, region in sorted(part.classes.items()):
+        ci = repo.cls(cname)
+        r = analyse_from_bitarray(repo, ci, region, part.nbits, B)
+        em = EncodingModel(cname)
+        em.file = ci.relpath
+        em.abstract = ci.bases[0].name if ci.bases else None
+        em.region = region
+        em.unpred = r.none
+        for exc, c in r.raises.items():
+            if exc == 'UndefinedInstructionException':
+                em.undef = B.OR(em.undef, c)
+            else:
+                em.other_raise[exc] = c
+        em.hosterrors = r.hosterrors
+        if r.tops:
+            raise AnalysisError('%s.from_bitarray returns a value outside the idiom: %s' % (cname, r.tops[:2]))
+        kws = {}
+        for cond, clsname, args, kwargs in r.accept:
+            em.accept = B.OR(em.accept, cond)
+            em.ctor[clsname] = B.OR(em.ctor.get(clsname, 0), cond)
+            for k, v in kwargs.items():
+                kws.setdefault(k, []).extend((B.AND(cond, c), p) for c, p in v.cases)
+            for i, a in enumerate(args):
+                kws.setdefault('#%d' % i, []).extend((B.AND(cond, c), p) for c, p in a.cases)
+        it = r.interp
+        for k, cases in kws.items():
+            em.kwargs[k] = Value(it.coalesce(cases))
+        em.interp = it
+        rm.encodings[cname] = em
+    return rm
+
+
+def all_instr_only(B, u, nbits):
+    iv = set(ivars(B, nbits))
+    return not (B.support(u) - iv)
